@@ -8,6 +8,7 @@ import (
 	"hash/fnv"
 	"net"
 	"os"
+	"runtime"
 	"sort"
 	"strconv"
 	"sync"
@@ -40,6 +41,8 @@ type result struct {
 }
 
 func main() {
+	// every system call of save and delete on the initial thread: strace counts calls per thread
+	runtime.LockOSThread()
 	if len(os.Args) < 3 {
 		fmt.Fprintln(os.Stderr, "usage: fsprobe <op> <dir> [key size seed]")
 		os.Exit(2)
